@@ -209,6 +209,154 @@ theorem ovo_split_cells (m : List (List Nat)) :
 example : splitOneVsOne [[1, 2, 3], [4, 5, 6], [7, 8, 9]] =
     [[[1, 2], [4, 5]], [[1, 3], [7, 9]], [[5, 6], [8, 9]]] := by decide
 
+/-- **permutation invariance of the confusion matrix**: permuting the (prediction, truth) pairs
+changes neither the members nor any cell (all derived scores are functions of these) -/
+theorem perm_invariant_cm (pred truth pred' truth' : List L)
+    (h : (pred.zip truth).Perm (pred'.zip truth')) (hp : pred.Perm pred') (ht : truth.Perm truth') :
+    classes pred truth = classes pred' truth' ∧
+    ∀ i j, cell (countLoop (classes pred truth) (pred.zip truth)) i j =
+           cell (countLoop (classes pred' truth') (pred'.zip truth')) i j := by
+  have hc : classes pred truth = classes pred' truth' := by
+    apply classes_congr
+    intro a
+    simp only [List.mem_append, hp.mem_iff, ht.mem_iff]
+  refine ⟨hc, fun i j => ?_⟩
+  rw [← hc]
+  unfold countLoop
+  rw [(cell_foldl_count _ _ _ (square_zeros _) i j).2, (cell_foldl_count _ _ _ (square_zeros _) i j).2]
+  congr 1
+  exact (h.filter _).length_eq
+
+example : (([0, 1, 1].zip [1, 1, 0]).Perm ([1, 0, 1].zip [0, 1, 1])) := by decide
+
+/-- `precision()` / `recall()` / `f_score` are the documented functions of the cells: on a 2×2
+matrix `m00/(m00+m10)` resp. `m00/(m00+m01)`, otherwise the macro average of these over the
+one-vs-all splits; `F_β = (1+β²)·p·r / (β²·p + r)` -/
+theorem precision_recall_documented {α : Type} [Field α] (m : List (List Nat)) :
+    (m.length = 2 → (precision m : α) = (cell m 0 0 : α) / ((cell m 0 0 : α) + (cell m 1 0 : α)) ∧
+                    (recall m : α) = (cell m 0 0 : α) / ((cell m 0 0 : α) + (cell m 0 1 : α))) ∧
+    (m.length ≠ 2 →
+      (precision m : α) = ((splitOneVsAll m).map fun s =>
+          (cell s 0 0 : α) / ((cell s 0 0 : α) + (cell s 1 0 : α))).sum / (m.length : α) ∧
+      (recall m : α) = ((splitOneVsAll m).map fun s =>
+          (cell s 0 0 : α) / ((cell s 0 0 : α) + (cell s 0 1 : α))).sum / (m.length : α)) ∧
+    ∀ β : α, fScore β m = (1 + β * β) * ((precision m : α) * recall m) / (β * β * precision m + recall m) := by
+  refine ⟨fun h => ?_, fun h => ?_, fun β => rfl⟩
+  · simp [precision, recall, h, precisionBin, recallBin, cellS]
+  · simp only [precision, recall, h, if_false, sumS_eq_sum]
+    exact ⟨rfl, rfl⟩
+
+example : (precision [[3, 0], [1, 2]] : Rat) = 3 / 4 ∧ (recall [[3, 0], [1, 2]] : Rat) = 1 ∧
+    (fScore 1 [[3, 0], [1, 2]] : Rat) = 6 / 7 := by
+  refine ⟨by decide +kernel, by decide +kernel, by decide +kernel⟩
+
 end Confusion
+
+section Regression
+variable {α : Type} [Field α] [LinearOrder α] [IsStrictOrderedRing α]
+
+/-- mean absolute / squared / percentage error and R² are their textbook formulas (the percentage
+error is relative to the receiver `a`; R² carries the code's `tiny = 1e-10` in the denominator) -/
+theorem regression_means_def (tiny : α) (a b : List α) (h : List.zipWith (· - ·) a b ≠ []) (hb : b ≠ []) :
+    meanAbsError a b = some ((List.zipWith (fun x y => |x - y|) a b).sum / ((List.zipWith (· - ·) a b).length : α)) ∧
+    meanSqError a b = some ((List.zipWith (fun x y => (x - y) * (x - y)) a b).sum / ((List.zipWith (· - ·) a b).length : α)) ∧
+    r2 tiny a b = some (1 - (List.zipWith (fun x y => (x - y) * (x - y)) a b).sum /
+      ((b.map fun y => (y - b.sum / (b.length : α)) * (y - b.sum / (b.length : α))).sum + tiny)) := by
+  have e1 : (subL a b).map absS = List.zipWith (fun x y => |x - y|) a b := by
+    simp [subL, List.map_zipWith, absS_eq_abs]
+  have e2 : (subL a b).map (fun x => x * x) = List.zipWith (fun x y => (x - y) * (x - y)) a b := by
+    simp [subL, List.map_zipWith]
+  refine ⟨?_, ?_, ?_⟩
+  · unfold meanAbsError
+    rw [meanS_eq _ (by rw [e1]; intro hc; apply h; simpa [List.zipWith_eq_nil_iff] using hc), e1]
+    simp
+  · unfold meanSqError
+    rw [meanS_eq _ (by rw [e2]; intro hc; apply h; simpa [List.zipWith_eq_nil_iff] using hc), e2]
+    simp
+  · unfold r2
+    rw [meanS_eq _ hb, Option.map_some, e2, sumS_eq_sum, sqDevSum, sumS_eq_sum]
+
+example : meanAbsError [1, 3, (2 : Rat)] [2, 1, 2] = some 1 ∧ meanSqError [1, 3, (2 : Rat)] [2, 1, 2] = some (5 / 3) := by
+  refine ⟨by decide +kernel, by decide +kernel⟩
+
+/-- `max_error` is the largest absolute difference: an upper bound that is attained -/
+theorem max_error_def (a b : List α) (v : α) (h : maxError a b = some v) :
+    (∀ e ∈ List.zipWith (fun x y => |x - y|) a b, e ≤ v) ∧ v ∈ List.zipWith (fun x y => |x - y|) a b := by
+  have e1 : (subL a b).map absS = List.zipWith (fun x y => |x - y|) a b := by
+    simp [subL, List.map_zipWith, absS_eq_abs]
+  unfold maxError at h
+  rw [e1] at h
+  generalize List.zipWith (fun x y => |x - y|) a b = l at h
+  cases l with
+  | nil => simp at h
+  | cons x xs =>
+    simp only [Option.some.injEq] at h
+    subst h
+    have key : ∀ (xs : List α) (x : α), (∀ e ∈ x :: xs, e ≤ xs.foldl maxS x) ∧ xs.foldl maxS x ∈ x :: xs := by
+      intro xs
+      induction xs with
+      | nil => intro x; simp
+      | cons y ys ih =>
+        intro x
+        simp only [List.foldl_cons]
+        obtain ⟨h1, h2⟩ := ih (maxS x y)
+        rw [maxS_eq_max] at h1 h2 ⊢
+        refine ⟨?_, ?_⟩
+        · intro e he
+          have hm := h1 (max x y) (List.mem_cons.mpr (Or.inl rfl))
+          rcases List.mem_cons.mp he with he | he
+          · rw [he]; exact le_trans (le_max_left x y) hm
+          · rcases List.mem_cons.mp he with he | he
+            · rw [he]; exact le_trans (le_max_right x y) hm
+            · exact h1 e (List.mem_cons.mpr (Or.inr he))
+        · rcases List.mem_cons.mp h2 with h2 | h2
+          · rw [h2]
+            rcases max_choice x y with hm | hm <;> rw [hm] <;> simp
+          · simp [h2]
+    exact key xs x
+
+example : maxError [1, 5, (2 : Rat)] [2, 1, 2] = some 4 := by decide +kernel
+
+/-- **explained variance is not the textbook quantity**: on the vector of linfa's own unit test the
+code's formula gives `4/5` where `1 - Var(err)/Var(truth)` is `12/25`; shifting the prediction by 10
+changes the value although the explained variance is shift invariant.  (Open finding
+`C05-explained-variance-mean-error`; `test_explained_variance_for_single_targets` pins `0.8`.) -/
+theorem explained_variance_not_textbook :
+    explainedVariance (0 : Rat) [1/10, 3/10, 2/10, 5/10, 7/10] [0, 1/10, 2/10, 3/10, 4/10] = some (4 / 5) ∧
+    explainedVarianceSpec [1/10, 3/10, 2/10, 5/10, 7/10] [0, 1/10, 2/10, 3/10, (4/10 : Rat)] = some (12 / 25) ∧
+    explainedVariance (0 : Rat) [101/10, 103/10, 102/10, 105/10, 107/10] [0, 1/10, 2/10, 3/10, 4/10] ≠
+      explainedVariance (0 : Rat) [1/10, 3/10, 2/10, 5/10, 7/10] [0, 1/10, 2/10, 3/10, 4/10] ∧
+    explainedVarianceSpec [101/10, 103/10, 102/10, 105/10, 107/10] [0, 1/10, 2/10, 3/10, (4/10 : Rat)] = some (12 / 25) := by
+  refine ⟨by decide +kernel, by decide +kernel, by decide +kernel, by decide +kernel⟩
+
+/-
+Full statement (false of the code, see `explained_variance_not_textbook`):
+  explainedVariance 0 a b = explainedVarianceSpec a b   for all a, b.
+Proved under the extra hypothesis that the mean error `m` satisfies `m = n·m²` (i.e. `m = 0` or
+`m = 1/n`), which is exactly when the code's `Σe² - m` equals `Σ(e - m)² = Σe² - n·m²`.
+-/
+theorem explained_variance_partial (a b : List α)
+    (hm : ∀ m, meanS (subL a b) = some m → m = ((subL a b).length : α) * (m * m)) :
+    explainedVariance 0 a b = explainedVarianceSpec a b := by
+  unfold explainedVariance explainedVarianceSpec
+  cases hb : meanS b with
+  | none => simp
+  | some mb =>
+    cases he : meanS (subL a b) with
+    | none => simp
+    | some me =>
+      simp only [Option.bind_some, Option.map_some, add_zero]
+      obtain ⟨_, hs⟩ := meanS_some he
+      have := hm me he
+      rw [sqDevSum_expand me (subL a b), hs, sumS_eq_sum]
+      have hnum : ((subL a b).map fun x => x * x).sum - me =
+          ((subL a b).map fun x => x * x).sum - 2 * me * (((subL a b).length : α) * me) +
+            ((subL a b).length : α) * (me * me) := by
+        linear_combination (-1 : α) * this
+      rw [hnum]
+
+example : meanS (subL [1, 3, (2 : Rat)] [2, 1, 3]) = some 0 := by decide +kernel
+
+end Regression
 
 end LinfaSpec.Props.C05
